@@ -30,3 +30,28 @@ Definition rp_rx2_dr (r : N) : N :=
   | 5 | 6 => 0
   | _ => 2
   end.
+
+(* RX2 default frequency (RP002 2.x.7): EU868 869.525 MHz, EU433 434.665 MHz, US915 / AU915 923.3 MHz, IN865 866.55 MHz,
+   AS923-n: 923.2 MHz + AS923_FREQ_OFFSET_HZ with the group offsets 0 / -1.80 / -6.60 / -5.90 MHz *)
+Definition rp_rx2_freq (r : N) : N :=
+  match r with
+  | 0 => 923200000 | 1 => 923200000 - 1800000 | 2 => 923200000 - 6600000 | 3 => 923200000 - 5900000
+  | 4 => 923300000 | 5 => 869525000 | 6 => 434665000 | 7 => 866550000 | _ => 923300000
+  end.
+
+(* band limits, maximum EIRP (dBm, EU433: 12.15 truncated), highest TXPower index, largest RX1DROffset, default join channels -- RP002 *)
+Definition rp_band (r : N) : N * N :=
+  match r with
+  | 0 | 1 | 2 | 4 => (915000000, 928000000) | 3 => (917000000, 920000000) | 5 => (863000000, 870000000)
+  | 6 => (433050000, 434790000) | 7 => (865000000, 867000000) | _ => (902000000, 928000000)
+  end.
+Definition rp_max_eirp (r : N) : N := match r with 0 | 1 | 2 | 3 | 5 => 16 | 6 => 12 | _ => 30 end.
+Definition rp_max_power_index (r : N) : N := match r with 4 | 8 => 14 | 6 => 5 | 7 => 10 | _ => 7 end.
+Definition rp_max_rx1_offset (r : N) : N := match r with 0 | 1 | 2 | 3 | 7 => 7 | 8 => 3 | _ => 5 end.
+Definition rp_join_channels (r : N) : list N :=
+  match r with
+  | 0 => [923200000; 923400000] | 1 => [923200000 - 1800000; 923400000 - 1800000] | 2 => [923200000 - 6600000; 923400000 - 6600000]
+  | 3 => [923200000 - 5900000; 923400000 - 5900000] | 5 => [868100000; 868300000; 868500000] | 6 => [433175000; 433375000; 433575000]
+  | 7 => [865062500; 865402500; 865985000] | _ => []
+  end.
+
